@@ -282,7 +282,7 @@ Proof.
 Qed.
 
 Lemma add_block_lemma ts pos w :
-  ts <> [] ->
+  ts <> [] -> existsb (fun t => t <? 0) ts = false ->
   (match pos with Some p => 0 <= p | None => True end) ->
   zlen (World.tl w) + zlen ts <= max_len w ->
   let new := fresh_block (next_tlid w) ts in
@@ -293,7 +293,7 @@ Lemma add_block_lemma ts pos w :
                       end)
     /\ next_tlid w' = next_tlid w + zlen ts.
 Proof.
-  intros Hne Hpos Hroom. cbv zeta. cbn [run_op]. unfold tl_add.
+  intros Hne Hwt Hpos Hroom. cbv zeta. cbn [run_op]. rewrite Hwt. unfold tl_add.
   destruct (add_loop_room ts pos [] w Hroom) as (w1 & E1 & T1 & N1 & _).
   cbn [app] in E1.
   destruct (increase_version_incr shuf w1) as ([] & w2 & E2 & (T2 & N2) & _).
@@ -309,10 +309,17 @@ Proof.
   - rewrite N2, N1. reflexivity.
 Qed.
 
+(* an argument list holding something that is not a Track is rejected before anything changes *)
+Lemma add_ill_typed_lemma ts pos w :
+  existsb (fun t => t <? 0) ts = true -> run_op shuf fuel (Add ts pos) w = (Raise ValidationError, w).
+Proof. intros H. cbn [run_op]. rewrite H. reflexivity. Qed.
+
+
 Lemma add_negative_rejected_lemma ts p w :
   p < 0 -> run_op shuf fuel (Add ts (Some p)) w = (Raise ValidationError, w).
 Proof.
-  intros Hp. cbn [run_op]. unfold tl_add. unfold bind at 1. unfold bind at 1.
+  intros Hp. cbn [run_op]. destruct (existsb (fun t => t <? 0) ts); [reflexivity|].
+  unfold tl_add. unfold bind at 1. unfold bind at 1.
   replace (p <? 0) with true by lia. reflexivity.
 Qed.
 
